@@ -22,11 +22,11 @@ for sid in sorted(os.listdir(os.path.join(ROOT, "seeded"))):
         meta["missed_first"] = runs[sid][0]["result"] != "CAUGHT"
         json.dump(meta, open(mp, "w"), indent=1)
     r = meta.get("check_runs", [])
-    rows.append((sid, meta.get("property"), "caught" if meta.get("caught") else ("MISSED" if r else "not run"),
-                 "missed at first, caught after strengthening" if meta.get("missed_first") and meta.get("caught") else "",
+    rows.append((sid, meta.get("property"), "caught" if meta.get("caught") else ("not claimed" if meta.get("not_claimed") else ("MISSED" if r else "not run")),
+                 "missed at first, caught after strengthening" if meta.get("missed_first") and meta.get("caught") else (meta.get("not_claimed", "")[:200] if not meta.get("caught") else ""),
                  (r[-1]["what"] if r else "")[:140]))
 with open(os.path.join(ROOT, "seeded", "RESULTS.md"), "w") as fh:
     fh.write("# Seeded changes (independent sub-agents) and the checks that catch them\n\n| seed | property | result | note | evidence (last run) |\n|---|---|---|---|---|\n")
     for r in rows:
         fh.write("| %s | %s | %s | %s | %s |\n" % tuple(str(x).replace("|", "/") for x in r))
-print("%d seeds, %d caught, %d missed, %d not run" % (len(rows), sum(r[2] == "caught" for r in rows), sum(r[2] == "MISSED" for r in rows), sum(r[2] == "not run" for r in rows)))
+print("%d seeds, %d caught, %d missed, %d not claimed, %d not run" % (len(rows), sum(r[2] == "caught" for r in rows), sum(r[2] == "MISSED" for r in rows), sum(r[2] == "not claimed" for r in rows), sum(r[2] == "not run" for r in rows)))
